@@ -335,7 +335,10 @@ class Sequence:
             pred, jac = self.jacobian(variables, **values)
             # check dimensions
             try:
-                np.broadcast_shapes(obs.shape, pred.shape)
+                # same number of acquisitions; leading (batch) axes broadcast
+                if obs.ndim < 1 or obs.shape[-1] != pred.shape[-1]:
+                    raise ValueError
+                np.broadcast_shapes(obs.shape[:-1], pred.shape[:-1])
             except ValueError:
                 raise ValueError(f"Mismatch between observation and prediction shapes")
             # compute confidence intervals
